@@ -63,6 +63,44 @@ def gen_cases(rng, tier):
     for i in range(n):
         node, text, toks = docs.random_doc(rng, size=rng.choice(['small', 'medium']))
         cases.append({'text': text, 'strict': True, 'kind': 'random'})
+    # element types whose shipped code the translator could not account for: every order of their optional items and
+    # every single item twice
+    import copy
+    for tname in sorted(set(f.get('type') for f in docs.TRANSLATION_FAILURES if f.get('type'))):
+        ti = sp.info.get(tname)
+        if ti is None:
+            continue
+        for j in range(40 if tier == 'quick' else 400):
+            try:
+                opts = docgen.GenOptions(version=rng.choice(docs.VERSIONS[-2:]), focus=tname, all_optionals=True, max_depth=4, max_repeat=1, p_optional=0.1)
+                node = docgen.gen_tree(sp, rng, opts)
+            except Exception:
+                continue
+            docs.order_positions(node)
+            for tnode in [n_ for n_, _p in node.walk() if n_.type == tname][:1]:
+                movable = [i_ for i_, k_ in enumerate(tnode.kids)
+                           if k_.type and not k_.is_block and not sp.info[k_.type].greedy_tail and not sp.info[k_.type].special]
+                perm = movable[:]
+                rng.shuffle(perm)
+                kids = list(tnode.kids)
+                for a_, b_ in zip(movable, perm):
+                    tnode.kids[a_] = kids[b_]
+                try:
+                    text, _ = docgen.render(node, rng, docgen.Layout(mode='canonical'), sp)
+                except Exception:
+                    tnode.kids = kids
+                    continue
+                cases.append({'text': text, 'strict': True, 'kind': 'sweep', 'focus': tname, 'version': list(opts.version)})
+                singles = [i_ for i_ in movable if ti.item(tnode.kids[i_].tag) is not None and not ti.item(tnode.kids[i_].tag).repeat]
+                if singles:
+                    i_ = rng.choice(singles)
+                    tnode.kids.insert(i_ + 1, copy.deepcopy(tnode.kids[i_]))
+                    text2, _ = docgen.render(node, rng, docgen.Layout(mode='canonical'), sp)
+                    tnode.kids.pop(i_ + 1)
+                    k0 = len(cases)
+                    cases.append({'text': text2, 'strict': True, 'kind': 'dev', 'dev': 'duplicate_single', 'tag': tnode.kids[i_].tag, 'pair': k0 + 1})
+                    cases.append({'text': text2, 'strict': False, 'kind': 'dev-lenient', 'dev': 'duplicate_single', 'tag': tnode.kids[i_].tag, 'pair': k0})
+                tnode.kids = kids
     return cases
 
 
